@@ -14,8 +14,8 @@ UMASKS = ('022', '077', 'preserve')
 PREFIXES = ('/usr', '/opt/x y')
 DESTDIRS = ('abs', 'rel', 'none')
 
-MODE_SRC = {'unset': None, 'sym': "'rwxr-x---'", 'suid': "['rwsr-x---', 0, 0]"}
-MODE_BITS = {'unset': None, 'sym': 0o750, 'suid': 0o4750}
+MODE_SRC = {'unset': None, 'sym': "'r-xr-x---'", 'suid': "['rwsr-x---', 0, 0]"}
+MODE_BITS = {'unset': None, 'sym': 0o550, 'suid': 0o4750}
 
 UNSPEC = None   # "mode not specified by the docs": never compared
 
